@@ -364,8 +364,9 @@ private:
         m_senders_waiting++;
         DEFER(m_senders_waiting--);
 
-        // Wait for a receiver
-        while (!m_closed && m_receivers_waiting == 0 && !m_handoff_ready) {
+        // Wait for a receiver and for the hand-off slot to be free: the slot
+        // holds a single value, so a second sender must not overwrite it
+        while (!m_closed && (m_receivers_waiting == 0 || m_handoff_ready)) {
             if (timeout.expired()) {
                 delete ptr;
                 errno = ETIMEDOUT;
@@ -386,23 +387,24 @@ private:
         // Place value in handoff slot
         m_handoff_ptr = ptr;
         m_handoff_ready = true;
+        auto seq = ++m_handoff_seq;
         m_unbuf_recv_cv.notify_one();
 
-        // Wait for receiver to take it
-        while (m_handoff_ready && !m_closed) {
+        // Wait for receiver to take it (the slot may already carry the value
+        // of another sender by the time we run again)
+        while (m_handoff_ready && m_handoff_seq == seq && !m_closed) {
             if (timeout.expired()) {
-                if (m_handoff_ready) {
-                    delete m_handoff_ptr;
-                    m_handoff_ptr = nullptr;
-                    m_handoff_ready = false;
-                }
+                delete m_handoff_ptr;
+                m_handoff_ptr = nullptr;
+                m_handoff_ready = false;
+                m_unbuf_send_cv.notify_all();   // the slot is free again
                 errno = ETIMEDOUT;
                 return false;
             }
             m_unbuf_send_cv.wait(m_unbuf_mutex, timeout);
         }
 
-        return !m_closed || !m_handoff_ready;
+        return !(m_handoff_ready && m_handoff_seq == seq);
     }
 
     bool unbuffered_recv(T& value, Timeout timeout) {
@@ -411,7 +413,9 @@ private:
         m_receivers_waiting++;
         DEFER(m_receivers_waiting--);
 
-        m_unbuf_send_cv.notify_one();
+        // senders wait on one queue for different things (a receiver, a free
+        // slot, their value being taken): wake them all and let them re-check
+        m_unbuf_send_cv.notify_all();
 
         // Wait for handoff
         while (!m_handoff_ready && !m_closed) {
@@ -429,7 +433,7 @@ private:
             delete m_handoff_ptr;
             m_handoff_ptr = nullptr;
             m_handoff_ready = false;
-            m_unbuf_send_cv.notify_one();
+            m_unbuf_send_cv.notify_all();
             return true;
         }
 
@@ -447,6 +451,7 @@ private:
         if (m_receivers_waiting > 0 && !m_handoff_ready) {
             m_handoff_ptr = ptr;
             m_handoff_ready = true;
+            ++m_handoff_seq;
             m_unbuf_recv_cv.notify_one();
             return true;
         }
@@ -462,7 +467,7 @@ private:
             delete m_handoff_ptr;
             m_handoff_ptr = nullptr;
             m_handoff_ready = false;
-            m_unbuf_send_cv.notify_one();
+            m_unbuf_send_cv.notify_all();
             return true;
         }
         return false;
@@ -510,6 +515,7 @@ private:
     // For unbuffered channels: mutex-based handoff
     T* m_handoff_ptr;
     bool m_handoff_ready;
+    uint64_t m_handoff_seq = 0;     // identifies whose value is in the slot
     mutex m_unbuf_mutex;
     condition_variable m_unbuf_send_cv;
     condition_variable m_unbuf_recv_cv;
